@@ -1,9 +1,185 @@
+"""C01 bounded parts: (1) identify_outcomes end to end against the exact SCM oracle (props/idfam.py); (2) run-time cross-check of the
+shape layer: the real line_2 / line_3 / line_4 / line_7 on sampled identifications against the published lines restated with networkx
+(outcomes, treatments, graph of the recursive argument; ValueError exactly when the line's precondition fails).  (2) guards the VC
+generator's reading of these functions: their contracts are discharged symbolically, and records mixing graphs and expressions are
+outside the generic run-time sweep."""
+from __future__ import annotations
+
+import json
+import random
+import time
+
+import networkx as nx
+
 from props import idfam
+from y0vc import concrete, oracles, pipeline
+
+
+def _graphs(vs, d, u, X=()):
+    dg = nx.DiGraph()
+    dg.add_nodes_from(vs)
+    dg.add_edges_from(d)
+    ug = nx.Graph()
+    ug.add_nodes_from(vs)
+    ug.add_edges_from(u)
+    return dg, ug
+
+
+def _an(dg, ys):
+    out = set(ys)
+    for y in ys:
+        out |= nx.ancestors(dg, y)
+    return out
+
+
+def _sig(ident):
+    g = ident.graph
+    return {"Y": {v.name for v in ident.outcomes}, "X": {v.name for v in ident.treatments},
+            "N": {v.name for v in g.nodes()}, "D": {(a.name, b.name) for a, b in g.directed.edges()},
+            "U": {frozenset((a.name, b.name)) for a, b in g.undirected.edges()}}
+
+
+def _sub(vs, d, u, keep):
+    return {"N": set(keep), "D": {(a, b) for a, b in d if a in keep and b in keep}, "U": {frozenset(e) for e in u if set(e) <= set(keep)}}
+
+
+def run_shape_case(c):
+    dsl = concrete.y0mod("y0.dsl")
+    ids = concrete.y0mod("y0.algorithm.identify.id_std")
+    ut = concrete.y0mod("y0.algorithm.identify.utils")
+    V = dsl.Variable
+    vs, d, u, X, Y = c["nodes"], [tuple(e) for e in c["directed"]], [tuple(e) for e in c["undirected"]], set(c["X"]), set(c["Y"])
+    g = oracles.build(vs, d, u, random.Random(c["seed"]))
+    ident = ut.Identification.from_parts(outcomes={V(y) for y in Y}, treatments={V(x) for x in X}, graph=g)
+    dg, ug = _graphs(vs, d, u)
+    same_graph = {"N": set(vs), "D": set(d), "U": {frozenset(e) for e in u}}
+
+    def call(fn):
+        try:
+            return "ok", fn(ident)
+        except Exception as e:
+            return type(e).__name__, None
+
+    def cmp(name, got, want):
+        s = _sig(got)
+        for k in ("Y", "X", "N", "D", "U"):
+            if s[k] != want[k]:
+                return f"{name}: {k} = {sorted(map(str, s[k]))}, the published line gives {sorted(map(str, want[k]))}"
+        return None
+    # line 2
+    anY = _an(dg, Y)
+    st, r = call(ids.line_2)
+    if (st == "ValueError") != (not (set(vs) - anY)):
+        return f"line_2: outcome {st}, V - An(Y) = {sorted(set(vs) - anY)}"
+    if st == "ok":
+        why = cmp("line_2", r, {"Y": Y, "X": X & anY, **_sub(vs, d, u, anY)})
+        if why:
+            return why
+    elif st != "ValueError":
+        return f"line_2 raised {st}"
+    # line 3
+    cut = nx.DiGraph()
+    cut.add_nodes_from(vs)
+    cut.add_edges_from((a, b) for a, b in d if b not in X)
+    W = (set(vs) - X) - _an(cut, Y)
+    st, r = call(ids.line_3)
+    if (st == "ValueError") != (not W):
+        return f"line_3: outcome {st}, W = {sorted(W)}"
+    if st == "ok":
+        why = cmp("line_3", r, {"Y": Y, "X": X | W, **same_graph})
+        if why:
+            return why
+    elif st != "ValueError":
+        return f"line_3 raised {st}"
+    # line 4
+    rest = [v for v in vs if v not in X]
+    comps = [set(k) for k in nx.connected_components(ug.subgraph(rest))]
+    st, r = call(ids.line_4)
+    if (st == "ValueError") != (len(comps) <= 1):
+        return f"line_4: outcome {st}, districts of G - X = {comps}"
+    if st == "ok":
+        got = sorted((sorted(v.name for v in i.outcomes), sorted(v.name for v in i.treatments)) for i in r)
+        want = sorted((sorted(k), sorted(set(vs) - k)) for k in comps)
+        if got != want:
+            return f"line_4: sub-problems {got}, the published line gives {want}"
+        for i in r:
+            s = _sig(i)
+            if (s["N"], s["D"], s["U"]) != (same_graph["N"], same_graph["D"], same_graph["U"]):
+                return "line_4: a sub-problem does not carry the caller's graph"
+    elif st != "ValueError":
+        return f"line_4 raised {st}"
+    # line 7 (acyclic graphs only: it needs a topological order)
+    if nx.is_directed_acyclic_graph(dg):
+        st, r = call(ids.line_7)
+        if len(comps) != 1:
+            if st != "RuntimeError":
+                return f"line_7: outcome {st} although G - X has {len(comps)} districts"
+        else:
+            S = comps[0]
+            Sp = next(set(k) for k in nx.connected_components(ug) if S <= set(k))
+            if (st == "ValueError") != (Sp == S):
+                return f"line_7: outcome {st}, S = {sorted(S)}, S' = {sorted(Sp)}"
+            if st == "ok":
+                why = cmp("line_7", r, {"Y": Y, "X": X & Sp, **_sub(vs, d, u, Sp)})
+                if why:
+                    return why
+            elif st != "ValueError":
+                return f"line_7 raised {st}"
+    return None
+
+
+def shape_cases(tier, rng):
+    import itertools as itt
+    for n in (2, 3):
+        for vs, d, u in oracles.all_admgs(n):
+            for k in range(0, n):
+                for xs in itt.combinations(vs, k):
+                    rest = [v for v in vs if v not in xs]
+                    for j in range(1, len(rest) + 1):
+                        for ys in itt.combinations(rest, j):
+                            yield {"nodes": vs, "directed": d, "undirected": u, "X": list(xs), "Y": list(ys), "seed": rng.randrange(1 << 30)}
+    for _ in range(400 if tier == "quick" else 10000):
+        n = rng.choice([4, 5, 5, 6])
+        vs, d, u = oracles.random_admg(rng, n, p_d=rng.choice([0.3, 0.5]), p_u=rng.choice([0.2, 0.4]))
+        perm = rng.sample(vs, n)
+        kx = rng.randint(0, n - 1)
+        ky = rng.randint(1, n - kx)
+        yield {"nodes": vs, "directed": d, "undirected": u, "X": perm[:kx], "Y": perm[kx:kx + ky], "seed": rng.randrange(1 << 30)}
 
 
 def extra(rep, repo, registry, known_open):
     idfam.sweep(rep, "C01", 400 if rep.tier == "quick" else 12000)
+    t0 = time.time()
+    rng = random.Random(repr((rep.seed, "C01-shape")))
+    cases = list(shape_cases(rep.tier, rng))
+    concrete.y0mod("y0.dsl")
+    fails, errs = [], []
+    for c in cases:
+        try:
+            why = run_shape_case(c)
+        except Exception as e:
+            errs.append(f"{type(e).__name__}: {e}")
+            continue
+        if why:
+            fails.append((c, why))
+    if errs:
+        rep.errors.append(f"C01 shape cross-check: {len(errs)} evaluation errors, e.g. {errs[0]}")
+    rep.extra_parts.append({"name": "id-lines-vs-published-lines", "kind": "bounded-cross-check", "evaluations": len(cases),
+                            "scope": "line_2, line_3, line_4, line_7 on every ADMG with 2-3 nodes x every query and sampled 4-6 node ADMGs: outcomes, treatments, graph of "
+                                     "the recursive argument and the ValueError / RuntimeError guards against the published lines restated with networkx",
+                            "failures": len(fails), "wall_s": round(time.time() - t0, 1)})
+    if fails and not rep.violations:
+        c, why = min(fails, key=lambda f: (len(f[0]["nodes"]), len(f[0]["directed"]) + len(f[0]["undirected"])))
+        path = pipeline.write_replay("C01", "bounded.lines", {"property": "C01", "obligation": "y0.algorithm.identify.id_std/bounded.lines", "case": c, "why": why, "shape": True})
+        rep.violations.append(("y0.algorithm.identify.id_std/bounded.lines", path, ""))
 
 
 def replay(payload, path):
+    if payload.get("shape"):
+        why = run_shape_case(payload["case"])
+        print(json.dumps({"case": payload["case"], "now": why}, indent=1))
+        if why:
+            print(f"VIOLATION property=C01 replay={path}")
+            return 1
+        return 0
     return idfam.replay("C01", payload, path)
